@@ -244,7 +244,7 @@ contract(CONN + '._acknowledge_settings', props=['C11', 'C03', 'C02', 'C13', 'C1
          'fs_pending': PEND(RS, 'S_MAX_FRAME_SIZE'), 'ht_pending': PEND(RS, 'S_HEADER_TABLE_SIZE')},
     ensures=[('one-ack-frame', 'len(result) == 1 and class_name(result[0]) == "SettingsFrame" and ("ACK" in result[0].flags) and result[0].stream_id == 0 and len(result[0].settings) == 0', ['C11', 'C02']),
              ('pending-values-applied', 'all(len(%s._settings[k]) == (old(len(%s._settings[k])) - 1 if old(len(%s._settings[k])) > 1 else old(len(%s._settings[k]))) and (%s._settings[k][0] == old(%s._settings[k][1 if len(%s._settings[k]) > 1 else 0])) for k in %s._settings)' % ((RS,) * 8), ['C11']),
-             ('stream-windows-shifted-by-the-delta', 'all(self.streams[k].outbound_flow_control_window == old(self.streams[k].outbound_flow_control_window) + (delta if iw_pending else 0) for k in self.streams)', ['C03', 'C11']),
+             ('stream-windows-shifted-by-the-delta', 'all(self.streams[k].outbound_flow_control_window == old(self.streams[k].outbound_flow_control_window) + (delta if iw_pending else 0) for k in self.streams)', ['C03', 'C11', 'C12']),
              ('stream-windows-in-range', 'all(self.streams[k].outbound_flow_control_window <= MAXWIN for k in self.streams)', ['C03', 'C12']),
              ('connection-window-not-shifted', 'self.outbound_flow_control_window == old(self.outbound_flow_control_window)', ['C03']),
              ('outbound-frame-size-follows', 'self.max_outbound_frame_size == (old(%s) if fs_pending else old(self.max_outbound_frame_size))' % NEWV(RS, 'S_MAX_FRAME_SIZE'), ['C11', 'C02']),
